@@ -23,13 +23,20 @@
 // Oracle: proleptic Gregorian civil_from_days / days_from_civil (H. Hinnant's integer algorithms) written here,
 //   cross-checked for every enumerated day against gmtime_r and timegm before the day is used (a disagreement is a
 //   harness failure, exit 3, never a verdict).  Field texts must be byte-identical to the oracle rendering; parsed
-//   values must be exactly the instant (UTCTimestamp), the time of day (UTCTimeOnly), the start of the day
-//   (UTCDateOnly, LocalMktDate, MonthYear 8 character form) or the start of the month (MonthYear 6 character form).
+//   values must be exactly the instant (UTCTimestamp), have that time of day (UTCTimeOnly, compared modulo one day),
+//   lie within that day (UTCDateOnly, LocalMktDate, MonthYear 8 character form) or within that month (MonthYear 6
+//   character form): the property asks these classes to keep their components, not to pick a particular instant.
 //   Log text: well-formed "YYYY-MM-DD HH:MM:SS[.f{p}]", every field in its calendar range, seconds 00..59, and the
 //   instant the text denotes differs from the real one by less than one unit of the last printed place (so both
 //   truncation and correct rounding are accepted).
-// Sanitizer builds: a sanitizer report inside a fix8 call is caught in-process (death callback) and recorded as a
-//   violation of memory-safe-and-total for that case; the enumeration continues.
+// Sanitizer builds: a sanitizer report inside a fix8 call is caught in-process (death callback of the sanitizer
+//   runtimes; the UBSan arithmetic-overflow handlers are interposed so that the millions of identical reports of a
+//   broken tree cost nothing) and recorded as a violation of memory-safe-and-total for that case; the enumeration
+//   continues.  For that the binary re-executes itself once with UBSAN_OPTIONS halt_on_error=0 (the
+//   -fno-sanitize-recover handlers still die, but after the report lock is released) and a small ASan quarantine.
+//   With case=<...> (replay) none of this is installed: the sanitizer prints its full report and kills the process.
+// Replay strings: "<TS|TO|DO|LM|MY|*>,<day since 1970-01-01>,<second of day>,<ms|*>", "<DO|LM|MY|*>,<day>,-,-" (the
+//   per-day text cases), "L,<renderer 0..5>,<day>,<second of day>,<nanoseconds>,<precision>".
 #include <fix8/f8includes.hpp>
 #include <csetjmp>
 #include <tuple>
@@ -117,6 +124,7 @@ static inline bool eq(const Txt& t, const char *e, size_t n) { return !t.overrun
 
 // in-process capture of sanitizer deaths
 static sigjmp_buf jb; static volatile sig_atomic_t armed = 0;
+static const char *volatile ub_last = "";	// kind of undefined behaviour, when one of the interposed UBSan handlers saw it
 #if defined(__SANITIZE_ADDRESS__) || defined(__SANITIZE_THREAD__)
 extern "C" void __sanitizer_set_death_callback(void (*)(void));
 static void on_death() { if (armed) { armed = 0; siglongjmp(jb, 1); } }
@@ -136,7 +144,6 @@ static void install_death_callback()
 // death caught by the callback above); after that an armed call is abandoned without the (slow) report.  Everything
 // else UBSan or ASan can report still takes the normal path.
 static int ub_full_reports = 0; static long long ub_silent = 0;
-static const char *volatile ub_last = "";
 typedef void (*ub3)(void *, void *, void *);
 #define UB_INTERPOSE(name, what) \
 	extern "C" void name(void *d, void *l, void *r) \
@@ -148,9 +155,9 @@ typedef void (*ub3)(void *, void *, void *);
 		if (real) real(d, l, r); \
 		_exit(1); \
 	}
-UB_INTERPOSE(__ubsan_handle_mul_overflow_abort, "signed integer overflow in a multiplication")
-UB_INTERPOSE(__ubsan_handle_add_overflow_abort, "signed integer overflow in an addition")
-UB_INTERPOSE(__ubsan_handle_sub_overflow_abort, "signed integer overflow in a subtraction")
+UB_INTERPOSE(__ubsan_handle_mul_overflow_abort, "ubsan:signed-integer-overflow-in-multiplication")
+UB_INTERPOSE(__ubsan_handle_add_overflow_abort, "ubsan:signed-integer-overflow-in-addition")
+UB_INTERPOSE(__ubsan_handle_sub_overflow_abort, "ubsan:signed-integer-overflow-in-subtraction")
 #define HAVE_SAN 1
 #else
 #define HAVE_SAN 0
@@ -214,11 +221,17 @@ struct H {
 			[&] { return shw(t); }, [&] { return std::string("\"") + e + "\""; });
 		return false;
 	}
-	template<class F> bool value_check(Cls c, bool pd, const F& f, int64_t want, int64_t want_secs, int64_t sub_ns, const char *clause, const char *step)
+	// span_ns == 0: the value must be exactly `want`; span_ns > 0: anywhere in [want, want + span_ns) (the property asks a
+	// date-only field to keep its date, not to sit on midnight); mod_day: compared modulo one day (a time-only field
+	// must keep its time of day, whatever day the library attaches to it)
+	static const int64_t DAY_NS = 86400LL * 1000000000LL;
+	template<class F> bool value_check(Cls c, bool pd, const F& f, int64_t want, int64_t want_secs, int64_t sub_ns, const char *clause, const char *step,
+		int64_t span_ns = 0, bool mod_day = false)
 	{
 		const int64_t got = f.get().get_ticks(); notev(step, got, want);
-		if (got == want) return true;
-		fail(c, pd, clause, vmode(got, want_secs, sub_ns), step, want_secs, [&] { return tk(got); }, [&] { return tk(want); });
+		if (mod_day ? (got >= 0 && got % DAY_NS == want) : span_ns ? (got >= want && got - want < span_ns) : got == want) return true;
+		fail(c, pd, clause, vmode(got, want_secs, sub_ns), step, want_secs, [&] { return tk(got); },
+			[&] { return mod_day ? tk(want) + " (modulo one day)" : span_ns ? tk(want) + " .. " + tk(want + span_ns - 1) : tk(want); });
 		return false;
 	}
 	template<class F> void ostream_check(Cls c, bool pd, const F& f, const char *e)
@@ -260,7 +273,7 @@ struct H {
 		FTo f1; f1.set(tv);
 		good &= text_check(TO, false, f1, t12, 12, "text-is-gregorian-utc-rendering", "value->text");
 		FTo f2(t12);
-		if (value_check(TO, false, f2, tod, -1, 0, "text-parses-to-same-instant", "text->value"))
+		if (value_check(TO, false, f2, tod, -1, 0, "text-parses-to-same-instant", "text->value", 0, true))
 			good &= text_check(TO, false, f2, t12, 12, "reprint-identical", "text->value->text");
 		else good = false;
 		if (sec2) {
@@ -269,12 +282,12 @@ struct H {
 			if (f3.get().get_ticks() != f2.get().get_ticks()) { good = false; fail(TO, false, "paths-agree", "f8String-ctor-differs-from-char-ctor", "text->value (f8String)", -1, [&] { return tk(f3.get().get_ticks()); }, [&] { return tk(f2.get().get_ticks()); }); }
 			ostream_check(TO, false, f1, t12);
 			FTo f4(t8);
-			if (value_check(TO, false, f4, (int64_t)sec * BILLION, -1, 0, "text-parses-to-same-instant", "text(no ms)->value"))
+			if (value_check(TO, false, f4, (int64_t)sec * BILLION, -1, 0, "text-parses-to-same-instant", "text(no ms)->value", 0, true))
 				good &= text_check(TO, false, f4, t12, 12, "reprint-identical", "text(no ms)->value->text");
 			else good = false;
 			struct tm hms; memset(&hms, 0, sizeof hms); hms.tm_sec = sec % 60; hms.tm_min = sec / 60 % 60; hms.tm_hour = sec / 3600;
 			FTo f5(hms);
-			good &= value_check(TO, false, f5, (int64_t)sec * BILLION, -1, 0, "calendar-fields-to-instant", "tm->value");
+			good &= value_check(TO, false, f5, (int64_t)sec * BILLION, -1, 0, "calendar-fields-to-instant", "tm->value", 0, true);
 		}
 		++cases[TO]; if (good) ++ok[TO];
 	}
@@ -291,7 +304,7 @@ struct H {
 		const int64_t ds = D->day * 86400;
 		bool good = true;
 		F f2(D->d8);
-		if (value_check(c, true, f2, ds * BILLION, ds, 0, "text-parses-to-same-instant", "text->value"))
+		if (value_check(c, true, f2, ds * BILLION, ds, 0, "text-parses-to-same-instant", "text->value", DAY_NS))
 			good &= text_check(c, true, f2, D->d8, 8, "reprint-identical", "text->value->text");
 		else good = false;
 		F f3(f8String(D->d8, 8));
@@ -317,14 +330,14 @@ struct H {
 	}
 	void my_perday()
 	{
-		const int64_t ds = D->day * 86400, mstart = D->month_start_day * 86400;
+		const int64_t ds = D->day * 86400, mstart = D->month_start_day * 86400, month_ns = (int64_t)days_in_month(D->y, D->m) * DAY_NS;
 		bool good = true;
 		FMy f2(D->m6);
-		if (value_check(MY, true, f2, mstart * BILLION, mstart, 0, "text-parses-to-same-instant", "text(YYYYMM)->value"))
+		if (value_check(MY, true, f2, mstart * BILLION, mstart, 0, "text-parses-to-same-instant", "text(YYYYMM)->value", month_ns))
 			good &= text_check(MY, true, f2, D->m6, 6, "reprint-identical", "text(YYYYMM)->value->text");
 		else good = false;
 		FMy f3(D->d8);
-		if (value_check(MY, true, f3, ds * BILLION, ds, 0, "text-parses-to-same-instant", "text(YYYYMMDD)->value"))
+		if (value_check(MY, true, f3, ds * BILLION, ds, 0, "text-parses-to-same-instant", "text(YYYYMMDD)->value", DAY_NS))
 			good &= text_check(MY, true, f3, D->d8, 8, "reprint-identical", "text(YYYYMMDD)->value->text");
 		else good = false;
 		FMy f4(f8String(D->d8, 8)), f5(f8String(D->m6, 6));
@@ -333,7 +346,7 @@ struct H {
 		// month and year alone (as the repository's own unit test builds it): day-of-month 0 means the first
 		struct tm mo; memset(&mo, 0, sizeof mo); mo.tm_mon = (int)D->m - 1; mo.tm_year = D->y - 1900;
 		FMy f6(mo);
-		if (value_check(MY, true, f6, mstart * BILLION, mstart, 0, "calendar-fields-to-instant", "tm(month,year)->value"))
+		if (value_check(MY, true, f6, mstart * BILLION, mstart, 0, "calendar-fields-to-instant", "tm(month,year)->value", month_ns))
 			good &= text_check(MY, true, f6, D->m6, 6, "text-is-gregorian-utc-rendering", "tm(month,year)->value->text");
 		else good = false;
 		++cases[MY]; ++perday; if (good) ++ok[MY];
@@ -344,10 +357,11 @@ struct H {
 	{
 		++died; ++cases[c];
 		const char *what = perday_case ? "text->value" : "round trip";
-		if (!first_few(c, "memory-safe-and-total", "sanitizer-report", what, want_secs)) return;
+		const char *kind = *ub_last ? (const char *)ub_last : "sanitizer-report";
+		if (!first_few(c, "memory-safe-and-total", kind, what, want_secs)) return;
 		std::string rep;
 #if HAVE_SAN
-		if (jumped == 2) rep = std::string("UBSan: ") + ub_last + " (report text suppressed after the first few)";
+		if (jumped == 2) rep = std::string(kind) + " (report text suppressed after the first few)";
 		else
 #endif
 		if (!errfile.empty()) {	// the report the sanitizer wrote for this death
@@ -355,11 +369,11 @@ struct H {
 			FILE *f = fopen(errfile.c_str(), "r");
 			if (f) { fseeko(f, errpos, SEEK_SET); char buf[1600]; size_t n = fread(buf, 1, sizeof buf - 1, f); buf[n] = 0; rep = buf; fseeko(f, 0, SEEK_END); errpos = ftello(f); fclose(f); }
 		}
-		R.viol("memory-safe-and-total", std::string("sanitizer-report during ") + clsname[c] + " " + what,
+		R.viol("memory-safe-and-total", std::string(kind) + " during " + clsname[c] + " " + what,
 			tags(c, "any", want_secs), id(c, perday_case), "sanitizer report, call did not return", "returns", rep);
 	}
 
-#define GUARD(cls, pd, want_secs, body) do { armed = 1; const int j_ = sigsetjmp(jb, 0); if (j_ == 0) { body; armed = 0; } else on_died(cls, pd, want_secs, j_); } while (0)
+#define GUARD(cls, pd, want_secs, body) do { ub_last = ""; armed = 1; const int j_ = sigsetjmp(jb, 0); if (j_ == 0) { body; armed = 0; } else on_died(cls, pd, want_secs, j_); } while (0)
 
 	void instant(const Day& day, int s, int msv, unsigned mask, bool sec2)
 	{
@@ -428,11 +442,11 @@ struct L {
 		const Tickval tv((time_t)esecs, (long)ns);
 		char idb[96]; snprintf(idb, sizeof idb, "L,%d,%lld,%d,%lld,%u", (int)r, (long long)day, sod, (long long)ns, p);
 		R.begin_case(idb); ++R.nontrivial;
-		armed = 1;
+		ub_last = ""; armed = 1;
 		std::string text;
 		if (sigsetjmp(jb, 0) != 0) {
 			++bad[r];
-			R.viol("memory-safe-and-total", std::string("sanitizer-report during ") + rendname[r], { std::string("renderer:") + rendname[r] }, idb, "sanitizer report, call did not return", "returns");
+			R.viol("memory-safe-and-total", std::string(*ub_last ? (const char *)ub_last : "sanitizer-report") + " during " + rendname[r], { std::string("renderer:") + rendname[r] }, idb, "sanitizer report, call did not return", "returns");
 			return;
 		}
 		text = render(r, tv, p);
